@@ -40,9 +40,23 @@ func c10Families(tier fw.Tier) []docFamily {
 		}
 		ts := docgen.TokenSpace{Alphabet: c10Alphabet, MaxLen: k}
 		fs = append(fs, docFamily{"tokens", ts.Count(), func(i int) (string, []sm.Record, bool) { return ts.At(i), nil, false }})
+		// MULTI: one record followed by every sequence of 1..4 lines from a menu of valid and faulty line kinds (several
+		// faults of different kinds in one record, in every order), then a second valid record
+		ms := docgen.TokenSpace{Alphabet: make([]string, len(c10MultiLines)), MaxLen: 4, MinLen: 1}
+		fs = append(fs, docFamily{"MULTI", ms.Count(), func(i int) (string, []sm.Record, bool) {
+			t := "2020-01-01\nsummary\n"
+			for _, d := range ms.Digits(i) {
+				t += c10MultiLines[d] + "\n"
+			}
+			return t + "\n2020-01-02\n    1h\n", nil, false
+		}})
 		return fs
 	})
 }
+
+// line kinds for the MULTI family: valid entry, open range, (second) open range, malformed entry, wrong indentation,
+// unindented text after entries, entry with a non-blank-looking blank continuation line
+var c10MultiLines = []string{"    1h ok", "    8:00 - ? open", "    9:00 - ?", "    foo", "     1h", "late summary", "    2h x\n        \u00a0"}
 
 var c10Alphabet = []string{"2020-01-01", "\n", "\r\n", " ", "    ", "\t", "1h", "x", "é中", "8:00 - ", "?", "(8h!)", "\u00a0"}
 
